@@ -162,10 +162,165 @@ func runDecShape(c *core.Ctx) []core.Obligation {
 	}
 	obs = append(obs, core.Ob("R-DECSHAPE", "nilfunc:scan", "-", "", core.Discharged, fmt.Sprintf("%d calls through function values in %d functions reachable from the Decode methods", dyn, len(fns))))
 
+	// (limitmsg) the limit that is tested is the limit that is reported (after round-8 seed C15-r8m2,
+	// `nloops > maxEncodedVertices` with the message still printing maxEncodedLoops): where a comparison with a
+	// constant leads straight to an error whose message prints constants, one of them is the constant compared -
+	// the message states what the author believed the test to be (Engler et al.: a stated belief contradicted by the
+	// code), and the documented limits are what "rejected before memory is allocated" refers to.
+	nlim := 0
+	for _, fn := range c.GeoFuncs() {
+		n := 0
+		for _, b := range fn.Blocks {
+			ifi, ok := b.Instrs[len(b.Instrs)-1].(*ssa.If)
+			if !ok {
+				continue
+			}
+			bo, ok := ifi.Cond.(*ssa.BinOp)
+			if !ok {
+				continue
+			}
+			var limit int64
+			var have bool
+			switch bo.Op.String() {
+			case ">", ">=", "<", "<=":
+				if k, ok := core.ConstInt(core.StripConv(bo.Y)); ok {
+					limit, have = k, true
+				} else if k, ok := core.ConstInt(core.StripConv(bo.X)); ok {
+					limit, have = k, true
+				}
+			}
+			if !have || limit < 1000 {
+				continue // only documented size limits, not small structural constants
+			}
+			// an error message built in the failing branch (either successor, up to two blocks deep)
+			var printed []int64
+			seenErr := false
+			visit := func(blk *ssa.BasicBlock) {
+				for _, in := range blk.Instrs {
+					call, ok := in.(*ssa.Call)
+					if !ok || core.StaticCallee(call) == nil || core.StaticCallee(call).Name() != "Errorf" {
+						continue
+					}
+					seenErr = true
+					// variadic arguments: MakeInterface values stored into the argument array
+					core.AllInstrs(fn, func(in2 ssa.Instruction) {
+						mi, ok := in2.(*ssa.MakeInterface)
+						if !ok || mi.Block() != blk && !(len(blk.Preds) == 1 && mi.Block() == blk.Preds[0]) {
+							return
+						}
+						if k, ok := core.ConstInt(core.StripConv(mi.X)); ok {
+							printed = append(printed, k)
+						}
+					})
+				}
+			}
+			for _, su := range b.Succs {
+				visit(su)
+				if len(su.Succs) > 0 && len(su.Instrs) <= 5 {
+					for _, s2 := range su.Succs {
+						visit(s2)
+					}
+				}
+			}
+			if !seenErr || len(printed) == 0 {
+				continue
+			}
+			nlim++
+			n++
+			key := fmt.Sprintf("limitmsg:%s#%d", core.FuncName(fn), n)
+			match := false
+			for _, p := range printed {
+				if p == limit {
+					match = true
+				}
+			}
+			if match {
+				obs = append(obs, core.Ob("R-DECSHAPE", key, c.Pos(bo.Pos()), core.FuncName(fn), core.Discharged, fmt.Sprintf("the limit %d is both tested and reported", limit)))
+			} else {
+				obs = append(obs, core.Ob("R-DECSHAPE", key, c.Pos(bo.Pos()), core.FuncName(fn), core.Violated,
+					fmt.Sprintf("the count is compared with %d but the error that follows reports the limit %v: the message states the documented limit, the test enforces another one, so counts between the two are accepted and memory is allocated for them before anything else is checked", limit, printed)))
+			}
+		}
+	}
+	if nlim < 4 {
+		obs = append(obs, core.Ob("R-DECSHAPE", "limitmsg:anchor", "-", "", core.Violated, fmt.Sprintf("unresolved anchor: %d limit tests with a reported limit found, 4 expected", nlim)))
+	}
+
+	obs = append(obs, byteReaderPassthrough(c))
+	obs = append(obs, polylineFirstVertex(c)...)
+
 	// (zerovertices) D31: Vertex(i) is vertices[i % len(vertices)], so a Loop with no vertices panics (integer divide
 	// by zero) in ContainsPoint, Contains, ... as soon as its bound lets a query through. Both decoders accept a
 	// vertex count of 0; each must therefore turn such a loop into the empty loop (or report an error): the lossless
 	// decoder itself, the compressed one through initBound.
+	// decodeCompressed (D33): the loop is handed to its index only after initBound has run (which normalises a
+	// zero-vertex loop) or on the "count is not zero" side of a test of the vertex count.
+	if fn := c.Fn("s2", "Loop", "decodeCompressed"); fn != nil {
+		key := "zerovertices:(*s2.Loop).decodeCompressed"
+		stop := map[*ssa.BasicBlock]bool{}
+		var avoid []core.Edge
+		var adds []*ssa.BasicBlock
+		for _, b := range fn.Blocks {
+			for _, in := range b.Instrs {
+				call, ok := in.(*ssa.Call)
+				if !ok || core.StaticCallee(call) == nil {
+					continue
+				}
+				switch core.StaticCallee(call).Name() {
+				case "initBound":
+					stop[b] = true
+				case "Add":
+					if core.StaticCallee(call).Signature.Recv() != nil && core.IsNamed(core.StaticCallee(call).Signature.Recv().Type(), "s2", "ShapeIndex") {
+						adds = append(adds, b)
+					}
+				}
+			}
+			ifi, ok := b.Instrs[len(b.Instrs)-1].(*ssa.If)
+			if !ok {
+				continue
+			}
+			bo, ok := ifi.Cond.(*ssa.BinOp)
+			if !ok {
+				continue
+			}
+			isCount := func(v ssa.Value) bool {
+				v = core.StripConv(v)
+				if call, ok := v.(*ssa.Call); ok {
+					if bi, ok := call.Call.Value.(*ssa.Builtin); ok && bi.Name() == "len" {
+						fr, ok := core.AsFieldLoad(call.Call.Args[0])
+						return ok && fr.Name == "vertices"
+					}
+					if f := core.StaticCallee(call); f != nil && f.Name() == "readUvarint" {
+						return true
+					}
+				}
+				return false
+			}
+			isZero := func(v ssa.Value) bool { n, ok := core.ConstInt(v); return ok && n == 0 }
+			if (isCount(bo.X) && isZero(bo.Y)) || (isCount(bo.Y) && isZero(bo.X)) {
+				switch bo.Op.String() {
+				case "==":
+					avoid = append(avoid, core.Edge{From: b, Idx: 1}) // the non-zero side
+				case "!=", ">":
+					avoid = append(avoid, core.Edge{From: b, Idx: 0})
+				}
+			}
+		}
+		bad := len(adds) == 0
+		for _, a := range adds {
+			if !stop[a] && core.ReachableAvoiding(fn.Blocks[0], a, avoid, stop) {
+				bad = true
+			}
+		}
+		if bad {
+			obs = append(obs, core.Ob("R-DECSHAPE", key, c.Pos(fn.Pos()), core.FuncName(fn), core.Violated,
+				"a compressed loop can reach its index with zero vertices: on the path where the properties word says a bound is encoded, initBound (which turns a zero-vertex loop into the empty loop) is not called and the vertex count is not tested - Polygon.Decode of 04 1E 01 00 00 02 00 plus a full rectangle returns nil and ContainsPoint divides by zero in Loop.Vertex"))
+		} else {
+			obs = append(obs, core.Ob("R-DECSHAPE", key, c.Pos(fn.Pos()), core.FuncName(fn), core.Discharged, "every path to index.Add passes initBound or the non-zero side of a test of the vertex count"))
+		}
+	} else {
+		obs = append(obs, core.Ob("R-DECSHAPE", "zerovertices:(*s2.Loop).decodeCompressed", "-", "", core.Violated, "unresolved anchor"))
+	}
 	for _, name := range []string{"decode", "initBound"} {
 		key := "zerovertices:(*s2.Loop)." + name
 		fn := c.Fn("s2", "Loop", name)
